@@ -204,43 +204,7 @@ func deadArmReason(ctx string) string {
 }
 
 func isRepanicOfRecover(p *ssa.Panic) bool {
-	seen := map[ssa.Value]bool{}
-	var from func(v ssa.Value, d int) bool
-	from = func(v ssa.Value, d int) bool {
-		if d > 6 || seen[v] {
-			return false
-		}
-		seen[v] = true
-		switch x := v.(type) {
-		case *ssa.Call:
-			if bi, ok := x.Call.Value.(*ssa.Builtin); ok && bi.Name() == "recover" {
-				return true
-			}
-		case *ssa.Phi:
-			for _, e := range x.Edges {
-				if from(e, d+1) {
-					return true
-				}
-			}
-		case *ssa.UnOp:
-			if al, ok := x.X.(*ssa.Alloc); ok {
-				for _, ref := range *al.Referrers() {
-					if st, ok := ref.(*ssa.Store); ok && from(st.Val, d+1) {
-						return true
-					}
-				}
-			}
-			return from(x.X, d+1)
-		case *ssa.ChangeInterface:
-			return from(x.X, d+1)
-		case *ssa.MakeInterface:
-			return from(x.X, d+1)
-		case *ssa.TypeAssert:
-			return from(x.X, d+1)
-		case *ssa.Extract:
-			return from(x.Tuple, d+1)
-		}
-		return false
-	}
-	return from(p.X, 0)
+	// the recovered value itself, a field taken out of it, or a wrapper around it (rules_interrupt.go)
+	mode, _ := recoverPanicMode(p)
+	return mode != ""
 }
